@@ -25,6 +25,14 @@ case "$VARIANT" in
     SIM_FLAGS="-std=c++20 -O1 -g -fno-access-control $COMMON_DEFS -DVERIF_VG -DVERIF_VARIANT_NAME=vg"
     LD_FLAGS="$WRAP -pthread -ldl"
     ;;
+  vg0)
+    # as vg, with the engine compiled without optimisation: at -O1 a branch on an indeterminate value can become a
+    # conditional move, which memcheck does not report; at -O0 every such test is a conditional jump
+    CXX=g++
+    ENG_FLAGS="-std=c++20 -O0 -g $COMMON_DEFS"
+    SIM_FLAGS="-std=c++20 -O1 -g -fno-access-control $COMMON_DEFS -DVERIF_VG -DVERIF_VARIANT_NAME=vg"
+    LD_FLAGS="$WRAP -pthread -ldl"
+    ;;
   asan)
     CXX=clang++
     SAN="-fsanitize=address,bounds,null -fno-sanitize-recover=bounds,null -fno-omit-frame-pointer"
